@@ -1,52 +1,14 @@
-import GoatSpec.Proto
-import GoatSpec.TextSpec
-/-! Line-protocol driver: one request per input line, one answer per output line. -/
-open GoatSpec GoatSpec.Proto
+import GoatSpec.Drv.Text
+/-! Line-protocol driver: one request per input line, one answer per output line.
+    Handlers live in GoatSpec/Drv/*.lean (`handleX : List String → Option String`). -/
+open GoatSpec GoatSpec.Drv
 
-def parseMk (s : String) : Option Mk :=
-  match s with
-  | "generate" => some .generate | "delete" => some .delete | "main" => some .main
-  | "user" => some .user | "insert" => some .insert | "endm" => some .endm | _ => none
-
-def impCode (a : ImportAct) : String :=
-  match a with | .keep => "k" | .add => "a" | .delete => "d"
-
-def optBool (o : Option Bool) : String :=
-  match o with | none => "skip" | some true => "ok" | some false => "bad"
-
-/-- split `a b c | d e` at the first `|` token -/
-def splitBar (ts : List String) : List String × List String :=
-  (ts.takeWhile (· != "|"), (ts.dropWhile (· != "|")).drop 1)
+def handlers : List (List String → Option String) := [handleText]
 
 def handle (toks : List String) : String :=
   match toks with
   | "ping" :: _ => "pong"
-  -- pass <kind> <e|b> <lines…>   →  <count> <lines…>
-  | "pass" :: k :: r :: ls =>
-    match parseMk k with
-    | some k =>
-      let p := pass k (if r == "b" then insertBlock else []) (ls.map decodeTok)
-      s!"{p.1} {encodeLines p.2}"
-    | none => "error bad-kind"
-  | "clean" :: ls =>
-    let p := cleanLines (ls.map decodeTok)
-    s!"{b2s p.1} {encodeLines p.2}"
-  | "patch" :: m :: ls =>
-    let p := patchLines (m == "1") (ls.map decodeTok)
-    let imps := if p.imports.isEmpty then "-" else ",".intercalate (p.imports.map impCode)
-    s!"{b2s p.updated} {b2s p.changed} {imps} {encodeLines p.lines}"
-  -- judge:clean <input lines…> | <changed> <output lines…>
-  | "judge:clean" :: rest =>
-    let (inp, out) := splitBar rest
-    match out with
-    | ch :: ols => optBool (cleanOK (inp.map decodeTok) (ch == "1") (ols.map decodeTok))
-    | [] => "error no-output"
-  | "judge:patch" :: m :: rest =>
-    let (inp, out) := splitBar rest
-    match out with
-    | up :: ch :: ols => optBool (patchOK (m == "1") (inp.map decodeTok) (up == "1") (ch == "1") (ols.map decodeTok))
-    | _ => "error no-output"
-  | _ => "error unknown-op"
+  | _ => (handlers.findSome? (fun h => h toks)).getD "error unknown-op"
 
 partial def loop (h : IO.FS.Stream) (out : IO.FS.Stream) : IO Unit := do
   let line ← h.getLine
